@@ -82,7 +82,7 @@ def build_replay(force=True):
     t0 = time.time()
     rc, out = sh(["cargo", "build", "--release", "--offline", "--manifest-path",
                   os.path.join(VERIF, "replay", "Cargo.toml")],
-                 env={"CARGO_TARGET_DIR": os.path.join(BUILD, "replay")}, timeout=1200)
+                 env={"CARGO_TARGET_DIR": os.path.join(BUILD, "replay"), "RUSTFLAGS": "--cfg riti_verif"}, timeout=1200)
     if rc != 0 or not os.path.exists(REPLAY_BIN):
         raise Inconclusive("replay driver does not build against /repo:\n" + out[-3000:])
     return time.time() - t0
